@@ -252,7 +252,7 @@ func runCountFits(c *Ctx) {
 								return true
 							}
 							sites++
-							good := spec.Passed(st.f, st.ref, "fits:"+norm(st.f.Info(), c2.Args[si])+"|"+norm(st.f.Info(), c2.Args[di]))
+							good := spec.PassedIn(st.f, st.ref, c2, "fits:"+norm(st.f.Info(), c2.Args[si])+"|"+norm(st.f.Info(), c2.Args[di]))
 							if !good {
 								okAll = false
 							}
@@ -851,8 +851,34 @@ func runCancelOwner(c *Ctx) {
 			var visit func(h *FuncInfo)
 			visit = func(h *FuncInfo) {
 				uses := false
+				// a use inside the `case <-ctx.Done():` clause of the function's own context parameter does not count: there the caller
+				// has given up, and every later round ends through the same clause (F56)
+				var giveUp []*ast.CommClause
+				InspectNoLits(h.Body, func(m ast.Node) bool {
+					cc, ok := m.(*ast.CommClause)
+					if !ok || cc.Comm == nil {
+						return true
+					}
+					if es, ok := cc.Comm.(*ast.ExprStmt); ok {
+						if u, ok := ast.Unparen(es.X).(*ast.UnaryExpr); ok && u.Op == token.ARROW {
+							if call, ok := ast.Unparen(u.X).(*ast.CallExpr); ok {
+								if sel, ok := ast.Unparen(call.Fun).(*ast.SelectorExpr); ok && sel.Sel.Name == "Done" {
+									if po, ok := ObjOf(h.Info(), sel.X).(*types.Var); ok && g.Type != nil && g.Type.Params != nil && g.Type.Params.Pos() <= po.Pos() && po.Pos() <= g.Type.Params.End() {
+										giveUp = append(giveUp, cc)
+									}
+								}
+							}
+						}
+					}
+					return true
+				})
 				InspectNoLits(h.Body, func(m ast.Node) bool {
 					if id, ok := m.(*ast.Ident); ok && h.Info().Uses[id] == co {
+						for _, cc := range giveUp {
+							if cc.Pos() <= id.Pos() && id.End() <= cc.End() {
+								return true
+							}
+						}
 						uses = true
 					}
 					return true
@@ -1866,6 +1892,20 @@ func runResendOnce(c *Ctx) {
 				return true
 			})
 		}
+		// the bitmap stored into resumePlan.bitmap
+		bvars := map[types.Object]bool{}
+		for h := f; h != nil; h = h.Parent {
+			ast.Inspect(h.Body, func(m ast.Node) bool {
+				if kv, ok := m.(*ast.KeyValueExpr); ok {
+					if k, ok := kv.Key.(*ast.Ident); ok && k.Name == "bitmap" {
+						if o := ObjOf(h.Info(), kv.Value); o != nil {
+							bvars[o] = true
+						}
+					}
+				}
+				return true
+			})
+		}
 		spec := &PassSpec{Name: "below-force", Vias: []Via{{Cond: func(g *FuncInfo, e ast.Expr) (string, bool, bool) {
 			be, ok := ast.Unparen(e).(*ast.BinaryExpr)
 			if !ok {
@@ -1879,7 +1919,31 @@ func runResendOnce(c *Ctx) {
 			case be.Op == token.GTR && fvars[ObjOf(g.Info(), be.X)]:
 				return "below:" + types.ExprString(be.Y), true, true
 			}
+			// v >= <state>.nextChunk / <state>.nextChunk <= v / v < <state>.nextChunk (F53)
+			isNext := func(e ast.Expr) bool {
+				sel, ok := ast.Unparen(e).(*ast.SelectorExpr)
+				return ok && sel.Sel.Name == "nextChunk"
+			}
+			switch {
+			case be.Op == token.GEQ && isNext(be.Y):
+				return "ahead:" + types.ExprString(be.X), true, true
+			case be.Op == token.LSS && isNext(be.Y):
+				return "ahead:" + types.ExprString(be.X), false, true
+			case be.Op == token.LEQ && isNext(be.X):
+				return "ahead:" + types.ExprString(be.Y), true, true
+			}
 			return "", false, false
+		}}, {Cond: func(g *FuncInfo, e ast.Expr) (string, bool, bool) {
+			// <plan bitmap>.Get(int(v)) (F53)
+			call, ok := ast.Unparen(e).(*ast.CallExpr)
+			if !ok || len(call.Args) != 1 {
+				return "", false, false
+			}
+			sel, ok := ast.Unparen(call.Fun).(*ast.SelectorExpr)
+			if !ok || sel.Sel.Name != "Get" || !bvars[ObjOf(g.Info(), sel.X)] {
+				return "", false, false
+			}
+			return "bit:" + types.ExprString(StripConv(g.Info(), call.Args[0])), true, true
 		}}}}
 		f.CFG().EachNode(func(r NodeRef) {
 			as, ok := r.Node().(*ast.AssignStmt)
@@ -1907,6 +1971,11 @@ func runResendOnce(c *Ctx) {
 			}
 			c.Check(spec.Passed(f, r, "below:"+chunk), key, as.Pos(), "the explicit re-send is scheduled only for a chunk below the force-send index",
 				"the re-send of chunk "+chunk+" is scheduled without testing that it lies below the plan's force-send index: a chunk inside the verify tail (with the default tail of 1: always the chunk that was verified) is also sent by the ordinary schedule, so it is dispatched twice and announced as two frames")
+			c.Check(spec.Passed(f, r, "bit:"+chunk), key+"/bit-set", as.Pos(), "the explicit re-send is scheduled only for a chunk whose bit is set in the plan's bitmap",
+				"the re-send of chunk "+chunk+" is scheduled without testing its bit in the bitmap the plan skips by: the schedule skips only chunks whose bit is set, so a report that names a verified chunk outside its own bitmap gets that chunk dispatched twice (re-send and schedule), announced as two frames")
+			c.Check(spec.Passed(f, r, "ahead:"+chunk), key+"/not-handed-out", as.Pos(), "the explicit re-send is scheduled only for a chunk the schedule has not reached",
+				"the re-send of chunk "+chunk+" is scheduled without testing that the schedule has not handed it out already (chunk >= nextChunk): a report that arrives after the grace period finds chunks sent without a plan - "+
+					"the chunk then goes out a second time, and when the whole file was sent, behind the end-of-file record and outside its frame count")
 		})
 		_ = info
 	}
